@@ -104,7 +104,7 @@ func fvcC03Build(segs []fvcC03Seg) fvcC03Pattern {
 var (
 	fvcC03Kinds    = []byte{':', '?', '*', '+'}
 	fvcC03Lits     = []string{"/", "-", ".", "/a", "/ab/"}
-	fvcC03FirstAll = []string{"/", "/a", "/ab/", "/-", "/.", "/a/", "/a-", "/a.", "/a/a"}
+	fvcC03FirstAll = []string{"/", "/a", "/ab/", "/-", "/.", "/a/", "/a-", "/a.", "/a/a", "/\xc3\x89"} // the last one: an upper-case letter outside ASCII (case folding is ASCII-only on both sides)
 	fvcC03FirstFew = []string{"/", "/a", "/ab/", "/a/"}
 	fvcC03Values   = []string{"", "a", "B", "x/y", "-", "%41"}
 )
